@@ -100,3 +100,83 @@ Proof.
   destruct (Z.ltb_spec x (-9223372036854775808)); [lia|].
   destruct (Z.ltb_spec 9223372036854775807 x); lia.
 Qed.
+
+(* ---------- decimal print / parse round-trip ---------- *)
+Definition pd_step (a d : Z) : Z := let v := a * 10 + d in if 18446744073709551616 <? v then 18446744073709551616 else v.
+
+Fixpoint consume_f (fuel : nat) (z a : Z) : Z :=
+  match fuel with
+  | O => a
+  | S f => if z <? 10 then pd_step a z else pd_step (consume_f f (z / 10) a) (z mod 10)
+  end.
+
+Lemma parse_digits_cons_digit d rest a : 0 <= d < 10 -> parse_digits ((ch_0 + d) :: rest) a = parse_digits rest (pd_step a d).
+Proof.
+  intros Hd. cbn [parse_digits]. unfold is_digit, ch_0.
+  assert (E1 : (48 <=? 48 + d) = true) by (apply Z.leb_le; lia).
+  assert (E2 : (48 + d <=? 57) = true) by (apply Z.leb_le; lia).
+  rewrite E1, E2. cbn [andb]. unfold pd_step. replace (48 + d - 48) with d by lia. reflexivity.
+Qed.
+
+Lemma parse_digits_fuel f : forall z acc a, 0 <= z ->
+  parse_digits (digits_fuel f z acc) a = match f with O => parse_digits acc a | S _ => parse_digits acc (consume_f f z a) end.
+Proof.
+  induction f as [|f IH]; intros z acc a Hz; [reflexivity|].
+  cbn [digits_fuel consume_f]. destruct (z <? 10) eqn:E.
+  - apply Z.ltb_lt in E. apply parse_digits_cons_digit. lia.
+  - apply Z.ltb_ge in E. rewrite IH by (apply Z.div_pos; lia).
+    destruct f as [|f'].
+    + (* out of fuel: excluded by the bound in the round-trip statement; the identity still holds *)
+      simpl. apply parse_digits_cons_digit. apply Z.mod_pos_bound. lia.
+    + apply parse_digits_cons_digit. apply Z.mod_pos_bound. lia.
+Qed.
+
+Lemma consume_f_value f : forall z, 0 <= z < 10 ^ Z.of_nat f -> z <= 18446744073709551616 -> (0 < f)%nat -> consume_f f z 0 = z.
+Proof.
+  induction f as [|f IH]; intros z Hz Hcap Hf; [lia|].
+  cbn [consume_f]. destruct (z <? 10) eqn:E.
+  - unfold pd_step. simpl. destruct (18446744073709551616 <? z) eqn:E2; [apply Z.ltb_lt in E2; lia | reflexivity].
+  - apply Z.ltb_ge in E. destruct f as [|f'].
+    + simpl in Hz. lia.
+    + rewrite IH.
+      * unfold pd_step. rewrite Z.mul_comm, <- Z.div_mod by lia. destruct (18446744073709551616 <? z) eqn:E2; [apply Z.ltb_lt in E2; lia | reflexivity].
+      * split; [apply Z.div_pos; lia|]. apply Z.div_lt_upper_bound; [lia|]. rewrite Nat2Z.inj_succ, Z.pow_succ_r in Hz by lia. lia.
+      * assert (z / 10 <= z) by (apply Z.div_le_upper_bound; lia). lia.
+      * lia.
+Qed.
+
+Lemma digits_fuel_head f : forall z acc, 0 <= z -> exists c rest, digits_fuel (S f) z acc = c :: rest /\ 48 <= c <= 57.
+Proof.
+  induction f as [|f IH]; intros z acc Hz; cbn [digits_fuel]; destruct (z <? 10) eqn:E.
+  - apply Z.ltb_lt in E. exists (ch_0 + z), acc. unfold ch_0. split; [reflexivity | lia].
+  - exists (ch_0 + z mod 10), acc. unfold ch_0. pose proof (Z.mod_pos_bound z 10 ltac:(lia)). split; [reflexivity | lia].
+  - apply Z.ltb_lt in E. exists (ch_0 + z), acc. unfold ch_0. split; [reflexivity | lia].
+  - apply Z.ltb_ge in E. apply IH. apply Z.div_pos; lia.
+Qed.
+
+Lemma parse_print_nat z : 0 <= z <= 18446744073709551616 -> parse_digits (print_nat_dec z) 0 = Some z.
+Proof.
+  intros Hz. unfold print_nat_dec. rewrite parse_digits_fuel by lia. simpl parse_digits at 1.
+  rewrite consume_f_value; [reflexivity | | lia | lia].
+  split; [lia|]. change (Z.of_nat 40) with 40. assert (18446744073709551616 < 10 ^ 40) by (vm_compute; reflexivity). lia.
+Qed.
+
+(* strconv.ParseInt(fmt.Sprint(z), 10, 64) = z for every int64 *)
+Theorem parse_print_roundtrip z : min_int64 <= z <= max_int64 -> parse_int (print_dec z) = Some z.
+Proof.
+  unfold min_int64, max_int64. intros Hz. unfold print_dec. destruct (z <? 0) eqn:E.
+  - apply Z.ltb_lt in E. unfold parse_int. cbn [ch_minus]. rewrite Z.eqb_refl.
+    destruct (digits_fuel_head 39 (- z) [] ltac:(lia)) as [c [rest [Hd Hc]]]. unfold print_nat_dec. rewrite Hd. rewrite <- Hd.
+    change (digits_fuel 40 (- z) []) with (print_nat_dec (- z)). rewrite parse_print_nat by lia.
+    replace (- - z) with z by lia. unfold in_int64, min_int64, max_int64.
+    replace (-9223372036854775808 <=? z) with true by (symmetry; apply Z.leb_le; lia).
+    replace (z <=? 9223372036854775807) with true by (symmetry; apply Z.leb_le; lia). reflexivity.
+  - apply Z.ltb_ge in E. unfold parse_int.
+    destruct (digits_fuel_head 39 z [] ltac:(lia)) as [c [rest [Hd Hc]]]. unfold print_nat_dec. rewrite Hd.
+    unfold ch_minus, ch_plus.
+    replace (c =? 45) with false by (symmetry; apply Z.eqb_neq; lia). replace (c =? 43) with false by (symmetry; apply Z.eqb_neq; lia).
+    rewrite <- Hd. change (digits_fuel 40 z []) with (print_nat_dec z). rewrite parse_print_nat by lia.
+    unfold in_int64, min_int64, max_int64.
+    replace (-9223372036854775808 <=? z) with true by (symmetry; apply Z.leb_le; lia).
+    replace (z <=? 9223372036854775807) with true by (symmetry; apply Z.leb_le; lia). reflexivity.
+Qed.
